@@ -174,6 +174,51 @@ func TestOperatorTable(t *testing.T) {
 	evid.Exhaustive("operator-x-operand-pair-table", n)
 }
 
+// TestSameNodeManyOperands: one operator node is evaluated several times in one run (in a loop) with operands
+// whose types change from pass to pass; each evaluation follows the row for its own operand types.
+func TestSameNodeManyOperands(t *testing.T) {
+	nums := []any{int64(1), 0.5, int64(7), -2.5, int64(1)<<53 + 1, 1e308, int64(-1), 0.0, int64(0)}
+	strs := []any{"a", "", "ab", "1"}
+	all := append(append([]any{nil, true, false}, nums...), strs...)
+	n := 0
+	for _, op := range binOps {
+		var seq, rights []any
+		switch op {
+		case "+", "-", "*", "/", "%", "<", "<=", ">", ">=":
+			seq, rights = nums, []any{int64(2), 2.5, int64(-3), int64(1) << 53}
+		default:
+			seq, rights = all, []any{nil, true, int64(1), 1.0, "a", "", int64(0)}
+		}
+		if op == "in" {
+			rights = []any{"a1", []any{int64(1), "a", 0.5}, []any{1.0, nil, true}}
+		}
+		for _, r := range rights {
+			for rot := 0; rot < len(seq); rot++ {
+				for side := 0; side < 2; side++ {
+					if op == "in" && side == 1 {
+						continue
+					}
+					var elems []*gen.Node
+					for i := range seq {
+						elems = append(elems, sgen.Lit(seq[(i+rot)%len(seq)]))
+					}
+					e := gen.NBin(op, id("v"), id("y"))
+					if side == 1 {
+						e = gen.NBin(op, id("y"), id("v"))
+					}
+					c := sem.NewCase(gen.FixAll([]*gen.Node{
+						gen.NSet("y", sgen.Lit(r)),
+						gen.NForIn("v", gen.NList(elems...), []*gen.Node{gen.NCall("probe", gen.NStr("r"), e)}),
+					}))
+					judge(t, "same-node", c, fmt.Sprintf("loop/%s/%s/%d/%d", op, sgen.Class(r), rot, side), "delivery/same-node-in-loop")
+					n++
+				}
+			}
+		}
+	}
+	evid.Exhaustive("one operator node evaluated in a loop over operands of changing types", n)
+}
+
 // TestShortCircuitTable: && and || with probes on both sides over all operand pairs.
 func TestShortCircuitTable(t *testing.T) {
 	vals := sgen.OperandValues()
